@@ -327,7 +327,7 @@ def _confirm(ob, built, drv, shape, problems, secs, nq):
     return ob.unknown("structural mismatch (%s) not confirmed natively on the adversarial corpus" % "; ".join(problems)[:300])
 
 
-QUICK = [("p256", 65, 64, 32), ("p256", 33, 64, 32), ("p256", 65, 63, 32), ("p256", 65, 66, 32), ("p256", 65, 62, 20),
+QUICK = [("p256", 65, 64, 32), ("p256", 65, 64, 20), ("secp256k1", 65, 64, 31), ("p256", 33, 64, 32), ("p256", 65, 63, 32), ("p256", 65, 66, 32), ("p256", 65, 62, 20),
          ("p256", 65, 0, 32), ("p256", 65, 64, 48), ("p256", 65, 64, 0),
          ("secp256k1", 65, 64, 32), ("secp256k1", 33, 66, 31), ("secp256k1", 65, 65, 32)]
 THOROUGH = QUICK + [("p256", 65, s, h) for s in (2, 60, 68, 70) for h in (1, 31, 33, 64)] + \
